@@ -37,7 +37,7 @@ RULE = (
     "exempt or allowed. Distinct = (language, multiset of slot kinds, multiset of literal forms)."
 )
 ASSUMPTIONS = [
-    "constant definitions are generated only as NAME = <literal or -literal> with a multi-letter UPPER_CASE name (no expressions, annotations, collections)",
+    "constant definitions are generated only as NAME[: type] = <literal or -literal> with a multi-letter UPPER_CASE name (no expressions, collections)",
     "range()/enumerate()/string-repetition slots hold a bare non-negative integer literal as a direct argument/operand",
     "a literal under unary minus: -v allowed => must not be reported; v allowed => either outcome accepted; else reported as v or -v",
     "files stay below the content heuristics for 'definition files' (<= 6 module-level UPPER numeric constants, <= 1 int dict key per dict)",
